@@ -57,6 +57,7 @@ type Parser struct {
 	errorRecovery *ErrorRecovery
 	currentToken  Token
 	input         string
+	mrDepth       int // current nesting depth while parsing a MATCH_RECOGNIZE PATTERN
 }
 
 func NewParser(input string) *Parser {
